@@ -83,7 +83,7 @@ add("C18", "exploration",
     COMMON_NOTE, "exhaustive product enumeration against a reference predicate", "E6", "5/C18")
 add("C19", "model_checking",
     "Explicit-state breadth-first search over all histories of Write/Read/Reset/Close/RemainingBytes/IsOpen/Open/Flush on the two handles (transport, buffer) of one bytes.Buffer, for both constructors, with a byte-FIFO reference compared after every transition (reads through either handle, RemainingBytes == unread length, Close empties, Reset visible through the other handle); plus the generic transport over every readable-length class and every registration/call sequence of <= 4 steps for the three callbacks (identity of arguments, result passed through, specific error and no call when unregistered).",
-    COMMON_NOTE + "States are keyed by the FIFO content, which determines all futures of a bytes.Buffer as far as the property observes it.",
+    COMMON_NOTE + "States are keyed by the model (FIFO content, whether a byte can be pushed back) AND by the private state of the real bytes.Buffer read by reflection, so two histories are merged only if the object itself is in the same state. Operations also include UnreadByte on the buffer handle and io.Copy from a size-limited reader into the transport.",
     "explicit-state BFS over operation histories of the real object against a FIFO reference model", "E2", "5/C19")
 
 add("C15", "exploration",
